@@ -315,7 +315,7 @@ func (t *Tokenizer) parseOperator() (string, bool) {
 	if d, _ := t.operatorDetector(r); d != nil {
 		op := string(r)
 		for {
-			r = t.next(false)
+			r = t.next(true)
 			var ok bool
 			if d, ok = d(r); d != nil {
 				op += string(r)
@@ -365,9 +365,6 @@ func (t *Tokenizer) peek(skipComment bool) rune {
 						s, l2 := utf8.DecodeRuneInString(t.str[l:])
 						if s == '/' {
 							t.str = t.str[l+l2:]
-							if len(t.str) == 0 {
-								return EOF
-							}
 							break
 						} else {
 							t.str = t.str[l:]
@@ -382,7 +379,10 @@ func (t *Tokenizer) peek(skipComment bool) rune {
 						}
 					}
 				}
-				t.last, size = utf8.DecodeRuneInString(t.str)
+				// a block comment separates tokens like a blank does
+				t.last = ' '
+				t.isLast = true
+				return t.last
 			}
 		}
 	}
